@@ -171,13 +171,17 @@ def linearFinalLine (l : Line) (minDev : Nat) : Line :=
 def linearOffsets (l : Line) (vals : List Nat) : List Nat :=
   (List.range vals.length).zipWith (fun i v => (BitVec.ofNat 64 v - l.eval i).toNat) vals
 
+/-- the running `(min_deviation, max_deviation)` of the estimator: the update step is extracted from
+the source (`Gen.linearDevStep`), started at `(u64::MAX, 0)` -/
+def devBounds (devs : List Nat) : Nat × Nat := devs.foldl Gen.linearDevStep (U64 - 1, 0)
+
 /-- mirrors: LinearCodecEstimator::{collect, finalize, serialize} for an arbitrary estimation line
 `l` (the real estimator trains it on the first `LINE_ESTIMATION_BLOCK_LEN` values). Returns the
 final line, the bit width and the payload. -/
 def linearEncWith (l : Line) (vals : List Nat) : Line × Nat × Bytes :=
   let devs := linearDeviations l vals
-  let minDev := devs.foldl Nat.min (U64 - 1)
-  let maxDev := devs.foldl Nat.max 0
+  let minDev := (devBounds devs).1
+  let maxDev := (devBounds devs).2
   let w := computeNumBits (maxDev - minDev)
   let fl := linearFinalLine l minDev
   (fl, w, pack w (linearOffsets fl vals))
